@@ -1,5 +1,6 @@
 import Tumfl.Theory.ResolveFaithfulFound
 import Tumfl.Theory.ResolveFaithfulExample
+import Tumfl.Theory.ResolveNothingLeft
 /-!
 # C04, the clause "everything else in every file is unchanged" - refinement of the resolver model to a declarative specification
 
@@ -56,5 +57,18 @@ theorem C04_spec_strict (fs : FS) (sp : List Path) (dir : Path) (t : Token) :
     InlExpr fs sp dir (.call t (.name t "require".toList) [.name t "x".toList]) (.call t (.name t "require".toList) [.name t "x".toList]) ∧
     ∀ f st, resolveExpr fs sp (f + 1) dir (.call t (.name t "require".toList) [.name t "x".toList]) st = .error (.dependency "Wrong require() arguments" t) :=
   inl_nonliteral_require fs sp dir t
+
+/-! ## C12: nothing is silently left behind -/
+
+/-- in a successfully resolved tree NO call of the bare name `require` remains, whatever its arguments: the literal ones were inlined (and the inlined chunks
+resolved in turn), every other one raised.  (`C04_no_require` is the special case of the literal ones.) -/
+theorem C12_nothing_left (fs : FS) (main : Path) (sp : List Path) (fuel : Nat) (b : Block) (h : resolveRecursive fs main sp fuel = .ok b) :
+    mentionsRequireBlock b = false :=
+  resolve_nothing_left fs main sp fuel b h
+
+/-- and if resolution succeeds, the main file contained no bare-name `require` call with anything but one string literal as arguments -/
+theorem C12_ok_no_bad_require (fs : FS) (main : Path) (sp : List Path) (fuel : Nat) (b' : Block) (h : resolveRecursive fs main sp fuel = .ok b') :
+    ∃ text b hs, fs.read main = some text ∧ parseText text = .ok (b, hs) ∧ badRequireBlock b = false :=
+  resolve_ok_no_bad_require fs main sp fuel b' h
 
 end Tumfl.Props
